@@ -34,7 +34,9 @@ type Base struct {
 }
 
 func GenBase(t *rapid.T, maxBlocks int) Base {
-	d := dagen.GenDAG(t, dagen.GenOpts{MaxBlocks: maxBlocks, MaxDepth: 2})
+	// one case in three nests inline maps / lists one level deeper: links then sit at depth 3 inside a block
+	depth := rapid.SampledFrom([]int{2, 2, 3}).Draw(t, "inline-depth")
+	d := dagen.GenDAG(t, dagen.GenOpts{MaxBlocks: maxBlocks, MaxDepth: depth})
 	sel := dagen.GenTraversalSel(t)
 	return Base{DAG: d, Sel: sel, Split: dagen.GenSplit(t, len(d.Blocks))}
 }
